@@ -43,6 +43,7 @@ OPS = ('assign', 'assign_inplace', 'repopulate', 'statistics', 'optimise', 'rela
 
 class C13(Check):
     pid = 'C13'
+    validate = True
     anchors = [('src/fast_ticc/containers/model_state.py', 'ModelState._update_cluster_membership'),
                ('src/fast_ticc/containers/model_state.py', 'ModelState.point_labels'),
                ('src/fast_ticc/containers/model_state.py', 'ModelState.deep_copy'),
@@ -86,7 +87,7 @@ class C13(Check):
         for op in OPS:
             for (K, P) in shapes:
                 cfgs.append(Config('op_%s_K%d_P%d' % (op, K, P), self.one_op, {'op': op, 'K': K, 'P': P},
-                                   split=3))
+                                   split=3, witness_every=9))
         phase_ops = ('assign', 'repopulate', 'statistics', 'optimise', 'relabel')
         for a, b in list(itertools.product(phase_ops, phase_ops)) + [(a, 'assign_inplace') for a in phase_ops + ('deep_copy',)]:
             for (K, P) in ([(2, 3)] if q else [(2, 4), (3, 3)]):
@@ -179,6 +180,7 @@ class C13(Check):
         if not ok:
             return
         c.notes['labels_after'] = states.labels_of(new)
+        c.outputs['members'] = [list(cl.member_points) for cl in new.clusters]
         c.prove('invariant_after_op', states.invariant(new, K, P))
         c.prove('input_intact_after_op', True if op == 'assign_inplace' else states.intact(st, fz))
 
